@@ -5,6 +5,9 @@ V = '/verif'
 props = [json.loads(l)["id"] for l in open(f'{V}/properties.jsonl')]
 meta = json.load(open(f'{V}/tools/props.json'))
 hooks = json.load(open(f'{V}/tools/hooks.json'))
+# every /repo commit made for the machinery (message starts with 'verif'): hook functions and the comment-only contract files, all behind the build tag
+hooks['source_commits'] = [l for l in subprocess.run(['git','-C','/repo','log','--reverse','--format=%H %s'],capture_output=True,text=True).stdout.split('\n') if l[41:].startswith('verif')]
+hooks['source_commits'] = [l.split()[0] for l in hooks['source_commits']]
 checks, na = [], []
 for p in props:
     m = meta.get(p)
